@@ -27,6 +27,8 @@ def standard_ops(nb, rng):
         b = max(0, min(b, last - n + 1))
         ops += [O('read', blk=b, n=n), O('write', blk=b, n=n), O('read', blk=b, n=n)]
     ops += [O('write', blk=5, n=1), O('write', blk=6, n=2), O('read', blk=5, n=3), O('read', blk=4, n=1), O('read', blk=8, n=1)]
+    # far beyond every capacity: block numbers whose byte address does not fit 32 bits
+    ops += [O('read', blk=2 ** 23, n=1), O('write', blk=2 ** 23 + 1, n=1), O('read', blk=2 ** 32 - 1, n=1), O('read', blk=2 ** 31, n=2), O('read', blk=1, n=1)]
     # empty transfers (a slice of no blocks), each followed by an ordinary call
     ops += [O('read', blk=7, n=0), O('read', blk=7, n=1), O('write', blk=7, n=0), O('write', blk=7, n=1), O('read', blk=7, n=2)]
     return ops
